@@ -96,6 +96,34 @@ def text_family(ctx, mode, big):
     return v
 
 
+def long_token_vectors(quick):
+    """the long-token family for the decoders (the mirror of C10's enc.long): every slot of the Zinc / Hayson grammars where a
+    token of free length can stand, filled with k ASCII characters followed by n multi-byte characters (2-, 3- and 4-byte), and
+    with raw 0xFF bytes - so that every fixed-size cut (an error message that quotes the first N bytes, a look-ahead window, a
+    buffer boundary) meets a character boundary at every alignment"""
+    ns = (1, 2, 5, 6, 7, 8, 9, 15, 16, 17, 21, 31, 32, 33) if quick else tuple(range(1, 41)) + (63, 64, 65, 127, 128, 129, 255, 257)
+    zinc_slots = ['1%s', '-4.5e3%s', '12_%s', '@%s', '@a "%s"', '^%s', '"%s"', '`%s`', '{%s:1}', '{a%s}', '{a:1%s}', '%s("x")', 'Foo("%s")',
+                  '%s', 'X%s', '[1%s]', 'ver:"3.0"\n%s\n1\n', 'ver:"3.0" %s:1\na\n1\n', 'ver:"3.0"\na\n%s\n', 'ver:"3.0"\na,b\n3,4W%s\n',
+                  'ver:"%s"\na\n', '2021-01-%s', '2021-01-01T00:00:00Z %s', '2021-01-01T00:00:00+01:00 %s', '12:00:%s', 'C(%s,1)', 'C(1,2%s)', '"\\%s"', '`\\%s`']
+    json_slots = ['{"_kind":"number","val":1,"unit":"%s"}', '{"_kind":"%s"}', '{"_kind":"ref","val":"%s"}', '{"_kind":"ref","val":"a","dis":"%s"}',
+                  '{"_kind":"symbol","val":"%s"}', '{"_kind":"uri","val":"%s"}', '{"_kind":"xstr","type":"%s","val":"x"}', '{"_kind":"date","val":"%s"}',
+                  '{"_kind":"time","val":"12:00:%s"}', '{"_kind":"dateTime","val":"2021-01-01T00:00:00Z","tz":"%s"}', '{"_kind":"dateTime","val":"%s"}',
+                  '{"_kind":"coord","lat":1,"lng":"%s"}', '{"%s":1}', '"%s"', '{"_kind":"grid","cols":[{"name":"%s"}],"rows":[]}',
+                  '{"_kind":"grid","meta":{"ver":"%s"},"cols":[{"name":"a"}],"rows":[]}', '{"_kind":"number","val":"%s"}', '%s']
+    out = []
+    for fmt, slots in (("dec.zinc", zinc_slots), ("dec.json", json_slots)):
+        for sl in slots:
+            for ch in ("\u00e9", "\u20ac", "\U0001F600"):
+                for k in range(4):
+                    for n in ns:
+                        out.append({"op": fmt, "text": [ord(c) for c in sl % ("a" * k + ch * n)], "src": "long"})
+            pre, post = sl.split("%s")
+            for k in range(2):
+                for n in ns:
+                    out.append({"op": fmt, "utf8": False, "text": list(pre.encode()) + [97] * k + [255] * n + list(post.encode()), "src": "long"})
+    return out
+
+
 def c04(ctx):
     # every spelling of every state: depth 2 in both tiers (depth 3 x 10 spellings is several million read events); the
     # thorough tier deepens the random values, the families and the number of recorded values instead
@@ -268,7 +296,7 @@ def c03(ctx):
         sched_docs = sched_docs[::6]
     sched = [{"op": "dec.sched.all", "text": t} for t in sched_docs]
     sched = sched + stream_vectors(ctx, 4 if q else 5, 1)
-    ev1 = hs_run(ctx, vt + vj + muts + jm + bombs + sched, "gen")
+    ev1 = hs_run(ctx, vt + vj + muts + jm + bombs + sched + long_token_vectors(q), "gen")
     ctx.bads += tlc_trace(ctx, "Trace_Total", ev1, shards=14)
     note_events(ctx, ev1, key=lambda e: [e.get("text"), e.get("schedule"), e.get("fail_at"), e.get("open"), e.get("n")])
     # 5. byte-level fuzz and corpus splices
@@ -281,10 +309,10 @@ def c03(ctx):
                   "runs from_str, Parser::parse_value over a reader and the lazy row iterator); all JSON objects of <= 2 members over the "
                   "names/values the Hayson visitor inspects; every prefix and single edit (delete/duplicate/replace/insert by class "
                   "representatives; thorough: full representative set on depth-0 documents, sampled set on every third depth-1 document) of the documents the spec writers produce for the depth-%d universe; nesting bombs n in 1..10^5 "
-                  "in a child process; reader schedules (all chunkings of texts <= 10 bytes, 1-byte reads, Interrupted before every "
+                  "in a child process; the long-token family (every grammar slot of free length filled with k ASCII + n multi-byte characters or raw 0xFF bytes, n up to %s); reader schedules (all chunkings of texts <= 10 bytes, 1-byte reads, Interrupted before every "
                   "byte, I/O error at every offset). REC: %d random byte strings / corpus splices. Outcome monitors: catch_unwind, "
                   "worker process with time limit (retried once alone), child exit status. distinct = distinct inputs"
-                  % (3 if q else 4, 0 if q else 1, n),
+                  % (3 if q else 4, 0 if q else 1, "33" if q else "257", n),
                   ["a hang is detected as no reply within 3 s (15 s on the retry) for inputs <= 1 KiB", "the watchdog, catch_unwind and "
                    "exit status are the observation; admissibility (ok|err) is judged by Trace_Total.tla"])
 
@@ -610,7 +638,7 @@ def c14(ctx):
     ctx.bads += tlc_trace_stateful(ctx, "Trace_NsCache", ev3, "defs.load", shards=14)
     note_events(ctx, ev3, key=lambda e: ["i", e.get("i")], trivial=lambda e: e.get("op") != "ns.replay")
     # real threads on cold namespaces, observed through the hook
-    rounds = 60 if q else 3000
+    rounds = 60 if q else 600   # ~6 000 hook events per round; 3 000 rounds exhausted the memory of the box
     ev2 = hs_rec(ctx, "ns", rounds)
     ctx.bads += tlc_trace_stateful(ctx, "Trace_NsCache", ev2, "defs.load", shards=14)
     note_events(ctx, ev2, key=lambda e: ["t", e.get("i")], trivial=lambda e: e.get("op") != "ns.qend")
